@@ -110,7 +110,12 @@ pub fn read_facts_and_rules(file_name: &str) -> Result<Vec<String>, String> {
                     if line.len() > 0 {
                         match check_last_char(&line, line_number) {
                             Some(msg) => { return Err(msg); },
-                            None => { long_line += &line; },
+                            None => {
+                                // Keep the lines apart. (The line break
+                                // separated two words.)
+                                long_line += &line;
+                                long_line += " ";
+                            },
                         }
                         rules.push(line);
                     }
